@@ -180,8 +180,18 @@ theorem cmMkCell (r : Region) (cell : List Rat) (k : Nat → Nat) (hl : cell.len
     rw [cmRemainderMul _ _ (hpos a ha)]
     have : ¬ (listMin cell / 1000 < 0) := not_lt.mpr htol
     simp [this]
+  have c4b : allLt r.ndim (fun a => decide (1 ≤ (Mesh.roundHalfEven (r.edge a / cell.getD a 0)).toNat)) = true := by
+    rw [allLt_iff]
+    intro a ha
+    rw [hedge a ha]
+    have hp := hpos a ha
+    have : (k a : Rat) * cell.getD a 0 / cell.getD a 0 = (k a : Rat) := by field_simp
+    rw [this, cmRoundNat]
+    have := hk a ha
+    simp only [Int.toNat_natCast, decide_eq_true_eq]
+    omega
   unfold Mesh.mkCell?
-  simp only [hl, ne_eq, not_true_eq_false, if_false, c2, Bool.false_eq_true, c3, Bool.not_true, c4,
+  simp only [hl, ne_eq, not_true_eq_false, if_false, c2, Bool.false_eq_true, c3, Bool.not_true, c4, c4b,
     cmBcOkEmpty]
   congr 1
   have : (tab r.ndim fun a => (Mesh.roundHalfEven (r.edge a / cell.getD a 0)).toNat) = tab r.ndim k := by
